@@ -330,6 +330,13 @@ func (n *AbsfsNFS) applyTuningSideEffects(old, updated *TuningOptions) {
 	}
 }
 
+// exceedsMaxFileSize reports whether a file of the given size is beyond the
+// configured PolicyOptions.MaxFileSize (0 or negative = unlimited).
+func (n *AbsfsNFS) exceedsMaxFileSize(size uint64) bool {
+	maxSize := n.policy.Load().MaxFileSize
+	return maxSize > 0 && size > uint64(maxSize)
+}
+
 // initAtomicOptions populates the atomic pointers from an ExportOptions.
 // Called once during New().
 func (n *AbsfsNFS) initAtomicOptions(opts *ExportOptions) {
